@@ -33,7 +33,7 @@ def FZ(target, seconds=60, pkg=None):
     return dict(name="fuzz-" + target, fuzz=target, seconds=seconds, tiers=("thorough",), pkg=pkg)
 
 CFG = {
-    "C20": dict(pkg="c20", level="exploration", runs=[R(shards=(5, 8))]),
+    "C20": dict(pkg="c20", level="exploration", runs=[R(shards=(16, 32))]),
 }
 try:
     sys.path.insert(0, ROOT)
